@@ -11,6 +11,12 @@ CHECKS = {
             "Generated-input search: every weighted/unweighted count and numeric cell of slices, strands, nubs and the cube tensors is compared with brute-force sums over respondents for thousands of random surveys over all supported dimension pairings. Exploration, not proof; bounded sizes.",
             "Trusts the brute-force encoder's zz9 layout (validated against the fixture-pinned library) and Hypothesis' generators; sizes bounded (N<=24, <=4 valid categories, <=3 items).", "6 C01"),
 }
+CHECKS["C02"] = ("respondent-level eligibility oracle vs. per-cell bases, margins, ranges and mask (Hypothesis)",
+    "Generated-input search over surveys with per-item missingness and random subtotal/difference insertions: the six base matrices, 1-D/2-D margins, scalar/1-D/2-D table base and margin, their ranges and the min-base mask are each compared with the count of respondents eligible for the denominator, one by one. Exploration.",
+    "Trusts encoder and oracle predicates (membership / validity per item); bounded sizes; threshold 0..12.", "6 C02")
+CHECKS["C03"] = ("oracle + defining relations (count/base, x100, sums to one over hidden-included base elements) on generated surveys",
+    "Generated-input search: proportions vs public count/base and vs respondent-level count/base, NaN iff zero base, [0,1] bound, percentages, sums to one with hidden elements read from an un-hidden reference run, margin proportions. One known finding (2-D margin-proportion fallback) is excluded by signature and reported.",
+    "Difference cells are left to C04; numpy warnings not escalated.", "6 C03")
 NOT_BUILT = {}
 
 def main():
